@@ -31,7 +31,8 @@ from . import bashrun, model, paths, sexp
 from .sexp import Q
 
 DEFAULT_WORDBREAKS = ' \t\n"\'@><=;|&(:'
-HANG_TIMEOUT = 3
+HANG_TIMEOUT = 8
+RETRY_TIMEOUT = 90
 
 PINNED_STOP = '                if [[ $literal == $subword* ]]; then\n                    break 2\n'
 FIXED_STOP = ('                if [[ $mode = complete && -v "state_transitions[$literal_id]" && $literal == $subword* ]]; then\n'
@@ -184,6 +185,14 @@ def run_cases(cases, variant='auto'):
         k += 1
         for i, b in zip(idx, results):
             c.results[i].bash = b
+    # a batch that gave nothing for a query (timeout under load, or a hang the model did not predict) is
+    # repeated for that query alone with a generous limit before it counts
+    for c in live:
+        for i, r in enumerate(c.results):
+            if r.model[0] != 'outoffuel' and r.bash is None:
+                results, _err = bashrun.run_queries(c.script, [c.queries[i]], cmd=c.cmd, wordbreaks=c.wordbreaks,
+                                                    timeout=RETRY_TIMEOUT)
+                r.bash = results[0]
     for c in live:
         for i, r in enumerate(c.results):
             if r.model[0] == 'outoffuel':
